@@ -29,4 +29,6 @@ Spec == GenSpec
 cScalars == {VS("x"), VS("y")}
 cConts == {EmptyMap, EmptyList}
 cScalars1 == {VS("x")}
+\* placeholder alphabets (check.py SUBST): "~" becomes a 36-byte key that begins with a two-byte character, "^" a 4.2 KiB value
+cScalarsLong == {VS("x"), VS("^")}
 =============================================================================
